@@ -119,6 +119,11 @@ func dirtyMarkSurvives(c *Ctx, rule string, fn *ssa.Function) {
 
 func runC07(c *Ctx) {
 	p := c.P
+	// C07.5 (shared with C08.1): a hash-only answer carries the range's element counter and
+	// compareResults reads Count==0 as "the other side holds nothing here": the counters must track
+	// set cardinality — addElement only when the skip list reported the element absent,
+	// removeElement only when it reported it present (round-5 seed C07-E: refused removal decrements).
+	importShared(c, "C08", runC08, "C08.1-count-pairing", "", "C07.5-count-pairing", 2)
 	rangeT := p.Type(ldPkg + ":Range").Underlying().(*types.Struct)
 	resT := p.Type(ldPkg + ":RangeResult").Underlying().(*types.Struct)
 	elT := p.Type(ldPkg + ":Element").Underlying().(*types.Struct)
